@@ -67,6 +67,7 @@ class StoreRun:
         self.fresh = 0
         self.samples = []
         self.uid_pool = ["uid-1", "uid-2", "uid-3", "UID-1", "uid 2", "u,3;x"]
+        self.bytes_hist = {}  # name -> served contents it has had
 
     def count(self, k, n=1):
         self.stats[k] = self.stats.get(k, 0) + n
@@ -189,6 +190,12 @@ class StoreRun:
                 uid = r.choice(self.uid_pool)
             else:
                 uid = m.get("uid") if r.random() < 0.8 else "u-moved-%d" % r.randint(0, 99)
+            prev = [b for b in self.bytes_hist.get(nm, []) if b != m["bytes"]]
+            if prev and r.random() < 0.2:
+                # back to an earlier content of this member (the collection returns to a state it had before)
+                b = r.choice(prev[-3:])
+                ct = "text/calendar" if nm.lower().endswith(".ics") else "text/vcard" if nm.lower().endswith(".vcf") else "application/octet-stream"
+                return {"op": "import", "name": nm, "body": b.decode("latin-1"), "ctype": ct, "revert": True}
             swap = None
             if p == "C06" and m.get("uid") and nm.lower().endswith(".ics") and r.random() < 0.3:
                 # the UID changes to one of the same length and nothing else does: same size, and with
@@ -488,6 +495,9 @@ class StoreRun:
             h.append(etag)
         if uid is not None:
             self.nontrivial.setdefault("uids", set()).add(uid)
+        bh = self.bytes_hist.setdefault(n, [])
+        if not bh or bh[-1] != data:
+            bh.append(data)
         eb = self.etag_bytes.setdefault(n, {})
         be = self.bytes_etag.setdefault(n, {})
         d = hashlib.sha1(data).hexdigest()
